@@ -85,6 +85,13 @@ pub fn vx_panic<T>() -> (r: T)
 { unimplemented!() }
 macro_rules! panic { ($($t:tt)*) => { vx_panic() } }
 
+/// `a0.into()` for an EvaluatedValue: impl From<EvaluatedValue> for TailedEvalResult (xexpr.rs; the real impl is
+/// checked against this meaning in V-gcons)
+impl From<EvaluatedValue> for TailedEvalResult { #[verifier::external_body] fn from(v: EvaluatedValue) -> Self { unimplemented!() } }
+impl vstd::std_specs::convert::FromSpecImpl<EvaluatedValue> for TailedEvalResult {
+    open spec fn obeys_from_spec() -> bool { true }
+    open spec fn from_spec(v: EvaluatedValue) -> Self { TailedEvalResult::Value(v) }
+}
 /// the condition evaluates to a Bool (or to an error value)
 pub open spec fn cond_is_bool(args: &[XExpr]) -> bool {
     ev(args[0]) matches Ok(v) ==> v.value is Bool
